@@ -14,4 +14,5 @@ import DateutilVerif.Properties.C02
 #print axioms C02.proved_templates_have_theorems
 #print axioms C02.offDescr_carries_offset
 #print axioms C02.offDescr_local_iff
+#print axioms C02.offDescr_zero_object
 #print axioms C02.parse_render_compact_fraction
